@@ -235,6 +235,20 @@ def run_case(ctx, h, tmp):
                     return out
                 gone = {id(x) for x in (subtree(d) if rec else [d])}
 
+                tid_cache = {}
+
+                def target_id(x):
+                    # whom a proxy stands for — asked of its resource for one nobody has followed, so that the proxy
+                    # itself stays as it is (a deletion may follow it, and rightly drops it when it names the deleted)
+                    if x.resolved:
+                        return id(x._wrapped)
+                    if id(x) not in tid_cache:        # (asked once, before the deletion: positions shift afterwards)
+                        try:
+                            tid_cache[id(x)] = id(x._proxy_resource.resolve_object(x._proxy_path))
+                        except Exception:
+                            tid_cache[id(x)] = None
+                    return tid_cache[id(x)]
+
                 def values():
                     snap = {}
                     for o in everything:
@@ -243,7 +257,7 @@ def run_case(ctx, h, tmp):
                         for g in _refs(o):
                             v = o.eGet(g)
                             vs = list(v) if g.many else ([v] if v is not None else [])
-                            snap[(id(o), g.name)] = [('proxy', x._proxy_path, id(x._wrapped) if x.resolved else None)
+                            snap[(id(o), g.name)] = [('proxy', x._proxy_path, target_id(x))
                                                      if hasattr(x, '_proxy_path') else ('obj', None, id(x)) for x in vs]
                     return snap
 
